@@ -85,7 +85,8 @@ def render_sorted(src, rng, prof):
     secs = []
     for t, b in R.sections:
         if t == "SyncTrack":
-            bl = [f"  {tk} = B {n}" for tk, n in src.tempo]
+            zero = rng.choice(["0", "0", "000", "00", "٠", "０"])  # a zero tempo is zero however it is spelled
+            bl = [f"  {tk} = B {n if n else zero}" for tk, n in src.tempo]
             others = [l for l in b if " = B " not in l]
             b = others[:1] + bl + others[1:] if others else bl
         secs.append((t, b))
@@ -126,7 +127,27 @@ def slice(ctx: fw.Ctx) -> fw.Outcome:
     return out
 
 
+def negative_queries(ctx, out):
+    """ordinary (valid) maps, one tempo included: no public query for a negative tick may return a time"""
+    rng = ctx.sub("negq")
+    for _ in range(ctx.n(150, 15_000)):
+        res, tempo = C01.rand_map(rng, rng.choice([1, 1, 2, 5]))
+        be = C01.build_bpm_events(res, tempo)
+        for tick in (-1, -rng.randint(2, 10**6)):
+            for name in ("timestamp_at_tick", "timestamp_at_tick_no_optimize_return"):
+                rp = {"op": "negq", "res": res, "tempo": tempo, "tick": tick, "api": name}
+                out.case("N" + fw.h(rp), True, None, tags=["negative-tick-" + str(min(len(tempo), 2))])
+                try:
+                    r = getattr(be, name)(tick)
+                    out.violation("negq-" + fw.h(rp), f"{name}({tick}) on a {len(tempo)}-tempo map returned {r}", rp, observed=str(r), promised="ValueError")
+                except ValueError:
+                    pass
+                except Exception as e:  # noqa: BLE001
+                    out.violation("negq-" + fw.h(rp), f"{name}({tick}) raised {impl.err_name(e)}", rp, observed=impl.err_name(e), promised="ValueError")
+
+
 def queries(ctx, out):
+    negative_queries(ctx, out)
     rng = ctx.sub("queries")
     for _ in range(ctx.n(200, 20_000)):
         res, tempo = C01.rand_map(rng, 5)
@@ -163,6 +184,12 @@ def replay(ctx, data):
     if data["op"] == "corrupt":
         x = impl.run_chart(data["text"])
         return (data["must_fail"] and x != "E ValueError"), x[:200]
+    if data["op"] == "negq":
+        be = C01.build_bpm_events(data["res"], [tuple(t) for t in data["tempo"]])
+        try:
+            return True, str(getattr(be, data["api"])(data["tick"]))
+        except ValueError:
+            return False, "ValueError"
     if data["op"] == "query":
         try:
             be = C01.build_bpm_events(data["res"], [tuple(t) for t in data["tempo"]])
